@@ -65,6 +65,7 @@ type interleaver struct {
 	plan    map[int][]func()
 	running bool
 	fired   int
+	handed  []handedOut
 }
 
 func (w *interleaver) tick() {
@@ -81,7 +82,29 @@ func (w *interleaver) tick() {
 }
 
 func (w *interleaver) StoreInnovation(i genetics.Innovation) { w.tick(); w.pop.StoreInnovation(i) }
-func (w *interleaver) Innovations() []genetics.Innovation   { w.tick(); return w.pop.Innovations() }
+func (w *interleaver) Innovations() []genetics.Innovation {
+	w.tick()
+	got := w.pop.Innovations()
+	// a record list that was handed out is scanned by its receiver without any lock while other goroutines store further
+	// innovations: what was handed out must never be written to again (remembered here, compared when the step is over)
+	w.handed = append(w.handed, handedOut{list: got, copy: append([]genetics.Innovation(nil), got...)})
+	return got
+}
+
+type handedOut struct{ list, copy []genetics.Innovation }
+
+// rewritten reports a record list that was modified after it had been handed out.
+func (w *interleaver) rewritten() error {
+	for _, h := range w.handed {
+		for i := range h.copy {
+			if h.list[i] != h.copy[i] {
+				return fmt.Errorf("record %d of an innovation list handed out by Innovations() was rewritten in place afterwards (%+v became %+v): "+
+					"a goroutine scanning that list reads it without a lock (data race under the parallel executor)", i, h.copy[i], h.list[i])
+			}
+		}
+	}
+	return nil
+}
 func (w *interleaver) NextInnovationNumber() int64           { w.tick(); return w.pop.NextInnovationNumber() }
 func (w *interleaver) NextNodeId() int                       { w.tick(); return w.pop.NextNodeId() }
 
@@ -163,7 +186,7 @@ func CheckC16Interleaved(c C16Interleaved, rec *Rec) error {
 			kind, other := in.Kind, genomes[b]
 			w.plan[in.AtCall] = append(w.plan[in.AtCall], func() {
 				other.Phenotype = nil // as for a baby: an operator receives a genome without (or with a current) phenotype
-				if _, err := structuralMutation(other, kind, pop, pop, opts); err != nil && inner == nil {
+				if _, err := structuralMutation(other, kind, w, w, opts); err != nil && inner == nil { // w passes straight through while an interruption runs
 					inner = fmt.Errorf("%s of genome %d (the interrupting one) returned error %v", kind, b, err)
 				}
 			})
@@ -180,6 +203,9 @@ func CheckC16Interleaved(c C16Interleaved, rec *Rec) error {
 		if w.fired > 0 {
 			interleavedSteps++
 			rec.Class(fmt.Sprintf("%s interrupted by another structural mutation (result %v)", st.Kind, ok))
+		}
+		if err := w.rewritten(); err != nil {
+			return fmt.Errorf("step %d (%s of genome %d, %d interruptions took place): %v", si, st.Kind, a, w.fired, err)
 		}
 		if err := oneMeaning(genomes); err != nil {
 			return fmt.Errorf("step %d (%s of genome %d, %d interruptions took place): %v", si, st.Kind, a, w.fired, err)
